@@ -38,6 +38,9 @@ var propC11 = &pProp{
 					// file names that look like format strings, positions or nothing
 					o.Filename = []string{"<empty>", "dir/a b.peg", "report_100%_done.txt", "my%20file%d.txt", `C:\g:1:2 (3): rule X.peg`, "é.peg"}[r.intn(6)]
 				}
+				if r.chance(1, 6) {
+					o.UseFile, o.UseReader = true, false // ParseFile: the name has a directory part
+				}
 				if gp.LeftRec {
 					o.Memoize = false // the model (needed to know which errors seed growing keeps) has no memo
 				}
